@@ -3,133 +3,8 @@
 (* of trusted certificates are the states; the table of admission options (2160 combinations) x the two endpoints   *)
 (* is evaluated inside every state.  The laws of ChainAdmission are invariants; every state is exported (CASE)      *)
 (* with the specification's verdicts for every option combination, the option table once (OPTS).                   *)
-EXTENDS ChainAdmission, Integers, Json, TLC
-
-CONSTANT Depth     \* number of stacked perturbations: 1 or 2
-
-(* ---------- the hierarchy ---------- *)
-\* instants: end-entity certificates expire at 4, CA certificates at 5; bounds and "now" are placed around them
-CAcert(id, subj, issuer, key, signer) ==
-  [id |-> id, parses |-> TRUE, subj |-> subj, issuer |-> issuer, key |-> key, signer |-> signer, isCA |-> TRUE,
-   ekus |-> {}, poison |-> "none", notAfter |-> 5, exts |-> {}]
-EE(id, issuer, signer, ekus, poison, exts) ==
-  [id |-> id, parses |-> TRUE, subj |-> id, issuer |-> issuer, key |-> "k" \o id, signer |-> signer, isCA |-> FALSE,
-   ekus |-> ekus, poison |-> poison, notAfter |-> 4, exts |-> exts]
-
-Genuine == {
-  CAcert("R1",  "R1", "R1", "kR1", "kR1"),                 \* root
-  CAcert("R2",  "R2", "R2", "kR2", "kR2"),                 \* second root
-  CAcert("R1b", "R1", "R1", "kR1", "kR1"),                 \* R1 re-issued: same name and key, other certificate
-  CAcert("R1n", "R1n", "R1n", "kR1", "kR1"),               \* R1's key under another name
-  CAcert("R1x", "R1", "R2", "kR1", "kR2"),                 \* R1 cross-signed by R2 (R1 itself links to it)
-  CAcert("I1",  "I1", "R1", "kI1", "kR1"),                 \* intermediate under R1
-  CAcert("I1x", "I1", "R2", "kI1", "kR2"),                 \* the same intermediate cross-signed by R2
-  CAcert("I2",  "I2", "I1", "kI2", "kI1"),                 \* second-level intermediate
-  [CAcert("P",  "P",  "I1", "kP",  "kI1") EXCEPT !.ekus = {"ct"}],   \* precertificate signing certificate
-  CAcert("U",   "U",  "U",  "kU",  "kU"),                  \* unrelated self-signed CA
-  EE("L2",  "I2", "kI2", {"server"}, "none", {}),
-  EE("L1",  "I1", "kI1", {}, "none", {}),                  \* no EKU extension
-  EE("LE",  "I2", "kI2", {"email", "client"}, "none", {}),
-  EE("LX",  "I2", "kI2", {"server"}, "none", {"X"}),       \* carries an extension a log may forbid
-  EE("LP",  "P",  "kP",  {"server"}, "ok", {}),            \* precertificate issued by the pre-issuer
-  EE("LQ",  "I2", "kI2", {"server"}, "ok", {}),            \* precertificate issued by the CA itself
-  EE("LNC", "I2", "kI2", {"server"}, "noncritical", {}),   \* malformed poison
-  EE("LNN", "I2", "kI2", {"server"}, "nonnull", {}),
-  EE("LNT", "I2", "kI2", {"server"}, "nullTrailing", {}),
-  EE("LNV", "I2", "kI2", {"server"}, "nullTrailingTLV", {}),
-  EE("LWT", "I2", "kI2", {"server"}, "wrongTag", {}),
-  EE("LLF", "I2", "kI2", {"server"}, "longFormNull", {}),
-  EE("LEV", "I2", "kI2", {"server"}, "empty", {}),
-  [EE("LCA", "I1", "kI1", {}, "none", {}) EXCEPT !.isCA = TRUE],     \* a CA certificate submitted as leaf
-  EE("LL",  "L1", "kL1", {"server"}, "none", {})           \* signed with the key of L1, which is not a CA
-}
-\* same fields, signature verifies under no key
-Twin(c) == [c EXCEPT !.id = c.id \o "~f", !.signer = "bad"]
-\* bytes that do not decode
-Bad == [id |-> "BAD", parses |-> FALSE, subj |-> "", issuer |-> "", key |-> "", signer |-> "", isCA |-> FALSE,
-        ekus |-> {}, poison |-> "none", notAfter |-> 0, exts |-> {}]
-AllCerts == Genuine \cup {Twin(c) : c \in Genuine} \cup {Bad}
-GenuineIds == {c.id : c \in Genuine}
-CertIds == {c.id : c \in AllCerts}
-Cert == [i \in CertIds |-> CHOOSE c \in AllCerts : c.id = i]
-Recs(s) == [i \in 1..Len(s) |-> Cert[s[i]]]
-Ids(p) == [i \in 1..Len(p) |-> p[i].id]
-
-\* which certificates a log trusts (TI: also an intermediate; TB, T1B: the re-issued root; TN: the renamed root only)
-TSets == [T1 |-> {"R1"}, T2 |-> {"R2"}, T12 |-> {"R1", "R2"}, TI |-> {"R1", "I1"}, TB |-> {"R1b"}, T1B |-> {"R1", "R1b"},
-          TN |-> {"R1n"}]
-TNames == DOMAIN TSets
-TRecs(n) == {Cert[i] : i \in TSets[n]}
-
-(* ---------- chains ---------- *)
-Bases == {
-  <<"L2", "I2", "I1">>, <<"L2", "I2", "I1", "R1">>, <<"L2", "I2", "I1x">>, <<"L2", "I2", "I1x", "R2">>,
-  <<"L2", "I2", "I1", "R1b">>,
-  <<"L1", "I1">>, <<"L1", "I1", "R1">>, <<"L1", "I1x", "R2">>, <<"L1", "I1", "R1x", "R2">>, <<"L1", "I1", "R1", "R1x", "R2">>,
-  <<"LP", "P", "I1">>, <<"LP", "P", "I1", "R1">>, <<"LP", "P", "I1x", "R2">>,
-  <<"LQ", "I2", "I1">>, <<"LQ", "I2", "I1", "R1">>,
-  <<"LCA", "I1">>, <<"LCA", "I1", "R1">>,
-  <<"LE", "I2", "I1">>, <<"LE", "I2", "I1", "R1">>,
-  <<"LX", "I2", "I1", "R1">>,
-  <<"LNC", "I2", "I1">>, <<"LNC", "I2", "I1", "R1">>, <<"LNN", "I2", "I1", "R1">>,
-  <<"LL", "L1", "I1", "R1">>,
-  <<"I2", "I1", "R1">>, <<"I1">>, <<"R1">>, <<"R1b">> }
-
-Insertable == {"U", "I1x", "I2", "P", "R2", "R1", "R1b", "R1n", "I1"}
-
-DropAt(s, i) == SubSeq(s, 1, i - 1) \o SubSeq(s, i + 1, Len(s))
-InsertAt(s, i, x) == SubSeq(s, 1, i - 1) \o <<x>> \o SubSeq(s, i, Len(s))      \* x becomes element i
-SwapAt(s, i) == [s EXCEPT ![i] = s[i + 1], ![i + 1] = s[i]]
-Pt(tag, ch) == [tag |-> tag, ch |-> ch]
-Perturb(s) ==
-  {Pt("drop", DropAt(s, i)) : i \in IF Len(s) > 1 THEN 1..Len(s) ELSE {}}            \* incl. "remove root"
-  \cup {Pt("swap", SwapAt(s, i)) : i \in 1..Len(s) - 1}
-  \cup {Pt("dup", InsertAt(s, i + 1, s[i])) : i \in 1..Len(s)}
-  \cup {Pt("dup", Append(s, s[i])) : i \in 1..Len(s) - 1}
-  \cup {Pt("insert", InsertAt(s, i, x)) : i \in 1..Len(s) + 1, x \in Insertable \ Range(s)}   \* incl. "append root"
-  \cup {Pt("forge", [s EXCEPT ![i] = s[i] \o "~f"]) : i \in {j \in 1..Len(s) : s[j] \in GenuineIds}}
-  \cup {Pt("garble", [s EXCEPT ![i] = "BAD"]) : i \in 1..Len(s)}
-
-\* chains submitted as they are only (their perturbations would repeat those of the LNC / LNN chains): the further
-\* malformed-poison leaves
-PlainBases == {<<l, "I2", "I1", "R1">> : l \in {"LNT", "LNV", "LWT", "LLF", "LEV"}}
-              \cup {<<l, "I2", "I1">> : l \in {"LNT", "LNV"}}
-P0 == {[tags |-> <<>>, ch |-> b] : b \in Bases \cup PlainBases}
-P1 == UNION {{[tags |-> <<q.tag>>, ch |-> q.ch] : q \in Perturb(b)} : b \in Bases}
-Ch01 == {p.ch : p \in P0 \cup P1}
-Ch2 == IF Depth >= 2 THEN UNION {{q.ch : q \in Perturb(c)} : c \in {p.ch : p \in P1}} \ Ch01 ELSE {}
-Cases == {[ch |-> p.ch, tags |-> p.tags, T |-> t] : p \in P0 \cup P1, t \in TNames}
-         \cup {[ch |-> c, tags |-> <<"two">>, T |-> t] : c \in Ch2, t \in TNames}
-
-(* ---------- the option table ---------- *)
-N == NoBound
-Starts == <<N, At(4), At(5)>>
-Limits == <<N, At(4), At(5)>>
-\* <<rejectExpired, rejectUnexpired, now>>; now = 0 / 9: before / after every NotAfter of the hierarchy
-Rejs == << <<FALSE, FALSE, 0>>, <<FALSE, FALSE, 9>>, <<TRUE, FALSE, 4>>, <<TRUE, FALSE, 5>>, <<FALSE, TRUE, 4>>,
-           <<FALSE, TRUE, 5>>, <<TRUE, FALSE, 0>>, <<TRUE, FALSE, 9>>, <<FALSE, TRUE, 0>>, <<FALSE, TRUE, 9>> >>
-EkuOpts == << {}, {"server"}, {"email", "ipsec"}, {"server", "any"} >>
-ExtOpts == << {}, {"X"}, {"Y"} >>
-NOpts == 3 * 3 * 10 * 2 * 4 * 3
-Opt(k) == LET z == k - 1
-              x == z % 3
-              e == (z \div 3) % 4
-              ca == (z \div 12) % 2
-              r == (z \div 24) % 10
-              l == (z \div 240) % 3
-              s == (z \div 720) % 3
-          IN [start |-> Starts[s + 1], limit |-> Limits[l + 1],
-              rejExp |-> Rejs[r + 1][1], rejUnexp |-> Rejs[r + 1][2], now |-> Rejs[r + 1][3],
-              onlyCA |-> (ca = 1), ekus |-> EkuOpts[e + 1], rejExts |-> ExtOpts[x + 1]]
-OptRow(k) == LET o == Opt(k) IN
-  [start |-> IF o.start.p THEN o.start.v ELSE -1, limit |-> IF o.limit.p THEN o.limit.v ELSE -1,
-   rejExp |-> o.rejExp, rejUnexp |-> o.rejUnexp, now |-> o.now, onlyCA |-> o.onlyCA, ekus |-> o.ekus, rejExts |-> o.rejExts]
-ASSUME PrintT(<<"OPTS", ToJson([k \in 1..NOpts |-> OptRow(k)])>>)
-\* hierarchy as the harness must materialize it
-ASSUME PrintT(<<"CERTS", ToJson(Genuine)>>)
-ASSUME PrintT(<<"TRUST", ToJson(TSets)>>)
-
-OptTab == [k \in 1..NOpts |-> Opt(k)]
+(* The hierarchy, the chains and the option table are those of ChainAdmissionWorld.                               *)
+EXTENDS ChainAdmissionWorld
 
 (* ---------- state ---------- *)
 VARIABLE cs
